@@ -156,8 +156,9 @@ Fixpoint run (fix24 : bool) (s : state) (tr : list event) : res state :=
               end
   end.
 
-(* [FIX24]: which code the model mirrors.  false = /repo before the repair of #24. *)
-Definition FIX24 : bool := false.
+(* [FIX24]: which code the model mirrors.  true = /repo since commit 659869d (repair of #24);
+   false = the code before it (kept so that the refutation stays checkable). *)
+Definition FIX24 : bool := true.
 
 (* observables *)
 Definition result_of (s : state) (p : pid) : option result :=
